@@ -362,8 +362,6 @@ def run_it(ctx, g, c):
         return
     if not check_columns(ctx, REL_IT, g, inp, tags, lib, samples, groups, c["n_linear"], ll_of_row):
         return
-    if budget > N:
-        return
     m = ctx.model(c14.model_op(c, ob))
     compare_model(ctx, REL_IT, g, inp, tags, m, samples, groups, c["n_linear"], None,
                   border=lambda: rc.oracle_accept([float(c["profile"][r]) for r in evaluated], rounds[-1][1])[1])
